@@ -16,6 +16,9 @@ def run(ctx):
     slots = readers.task_slots(prog, P)
     n = 0
     readers.selector_identity(ctx, P)
+    # the level key reaches the stream through the selector's __getitem__: anchored for the generic lints
+    prog.func(PC, "LevelDataSelector.__getitem__", P)
+    prog.func(PC, "LevelDataSelector.__init__", P)
     for kind, funs in sorted(disp.items()):
         if "file_fun" not in funs:
             ctx.finding(f"{P}.DISPATCH", PC + "::LevelDataStream.__init__", f"no file_fun stored for {kind} selectors")
